@@ -15,6 +15,23 @@ unsafe fn scan(ptr: *mut u8, size: usize) {
         return;
     }
     FREED.fetch_add(1, Ordering::Relaxed);
+    // the marker value 0xA7A7A7A7A7A7A7A7 written out in decimal (a formatted copy of the secret value)
+    const DEC: &[u8] = b"12080808863958804391";
+    if size >= DEC.len() {
+        let mut k = 0usize;
+        while k + DEC.len() <= size {
+            let mut j = 0usize;
+            while j < DEC.len() && *ptr.add(k + j) == DEC[j] {
+                j += 1;
+            }
+            if j == DEC.len() {
+                DIRTY.fetch_add(1, Ordering::Relaxed);
+                DIRTY_SIZE.store(size, Ordering::Relaxed);
+                return;
+            }
+            k += 1;
+        }
+    }
     let mut run = 0usize;
     let mut i = 0usize;
     while i < size {
